@@ -1,6 +1,15 @@
-"""C06 / C07 / C08 — RuntimeCycle: design-level TLC run, script generation (TLC export +
-seeded random), execution on the real runtime, trace validation against RuntimeCycleTrace."""
+"""C06 / C07 / C08 / C09 — RuntimeCycle: design-level TLC runs, script generation (TLC export +
+seeded random), execution on the real runtime, trace validation against RuntimeCycleTrace.
+
+Two families of configurations: "base" (only PROGRAMs are associated with tasks) and "fb"
+(FUNCTION_BLOCK instances of the programs are associated with tasks as well, mixed with task and
+background programs).  Each family has its own model instances (MCRuntimeCycle_<id>.cfg /
+MCRuntimeCycle_<id>fb.cfg), its own TLC script exporter (GenRuntimeCycle.cfg / GenRuntimeCycleFb.cfg)
+and its own stream of random scripts (cycle-gen --runs / --fb-runs); the model runs of the two
+families proceed concurrently with the script pipeline."""
 import json
+import time
+from concurrent.futures import ThreadPoolExecutor
 
 from common import (OUT, Report, ToolError, build_harness, digest, log, read_ndjson, run_tlc,
                     seed, split_runs, tlc_printed, tpv, validate_trace)
@@ -12,7 +21,10 @@ NEED_ACTIONS = {
     "C07": ["DoSetSrc", "DoCycle"],
     "C08": ["DoInject", "DoFailDriver", "DoWatchdog", "DoSimFault", "DoCycle", "DoRefusedCycle"],
 }
-SCHED = {"executed-sequence", "task-events", "overruns", "program-counters"}
+# the model instances over the configurations with FB-task associations must also inject faults
+# into the bodies of task-driven FB instances where faults are enabled
+NEED_ACTIONS_FB = {"C06": [], "C07": [], "C08": ["DoInjectFb"], "C09": ["DoInjectFb"]}
+SCHED = {"executed-sequence", "task-events", "overruns", "program-counters", "fb-instance-state"}
 
 
 def safe_bits(cfg):
@@ -72,18 +84,55 @@ def owners(b, ev, cfg, restarted):
     return own
 
 
-def gen_scripts(prop, tier, work):
-    n_rand = 500 if tier == "quick" else 6000
-    n_sim = 150 if tier == "quick" else 2500
-    rnd = work / "scripts_random.ndjson"
-    tpv(["cycle-gen", "--seed", seed(), "--runs", n_rand, "--out", rnd] + (["--restarts", "1"] if prop == "C09" else []))
-    scripts = read_ndjson(rnd)
-    g = run_tlc("MCRuntimeCycle", "GenRuntimeCycle", workers=1, simulate=n_sim, depth=13, seed_=seed(),
-                timeout=900, tag=f"gen-{prop}")
+def has_fb(script):
+    return bool(script["cfg"].get("fbs"))
+
+
+def export_scripts(cfgname, n_sim, prop):
+    g = run_tlc("MCRuntimeCycle", cfgname, workers=1, simulate=n_sim, depth=13, seed_=seed(),
+                timeout=900, tag=f"{cfgname}-{prop}")
     exported = tlc_printed(g["stdout"], "SCRIPT")
     if len(exported) < n_sim // 2:
-        raise ToolError(f"TLC exported only {len(exported)} scripts")
+        raise ToolError(f"TLC exported only {len(exported)} scripts from {cfgname}")
+    return exported
+
+
+def gen_scripts(prop, tier, work):
+    """(random scripts, TLC-exported scripts); in both lists the scripts without FB-task associations
+    come first (as many as before FB associations were added), followed by the ones with."""
+    n_rand = 500 if tier == "quick" else 6000
+    n_sim = 150 if tier == "quick" else 2500
+    n_rand_fb = 160 if tier == "quick" else 2000
+    n_sim_fb = 60 if tier == "quick" else 800
+    with ThreadPoolExecutor(max_workers=2) as ex:
+        base = ex.submit(export_scripts, "GenRuntimeCycle", n_sim, prop)
+        fb = ex.submit(export_scripts, "GenRuntimeCycleFb", n_sim_fb, prop)
+        rnd = work / "scripts_random.ndjson"
+        tpv(["cycle-gen", "--seed", seed(), "--runs", n_rand, "--fb-runs", n_rand_fb, "--out", rnd]
+            + (["--restarts", "1"] if prop == "C09" else []))
+        scripts = read_ndjson(rnd)
+        exported = base.result() + fb.result()
+    if sum(1 for s in scripts if not has_fb(s)) != n_rand or sum(1 for s in scripts if has_fb(s)) != n_rand_fb:
+        raise ToolError("cycle-gen did not produce the requested numbers of scripts without / with FB associations")
+    if any(has_fb(s) for s in exported[:len(exported) - len(fb.result())]) or not all(has_fb(s) for s in fb.result()):
+        raise ToolError("TLC exporters produced configurations of the wrong family")
     return scripts, exported
+
+
+def model_runs(prop, tier):
+    """Design-level model checking: the instance over the configurations without FB associations
+    and the one over those with; returns (base result, fb result)."""
+    names = (f"MCRuntimeCycle_{prop}", f"MCRuntimeCycle_{prop}fb") if tier == "quick" else ("MCRuntimeCycle_all", "MCRuntimeCycle_allfb")
+    with ThreadPoolExecutor(max_workers=2) as ex:
+        base = ex.submit(run_tlc, "MCRuntimeCycle", names[0], workers=8, coverage=True, timeout=2400, tag=f"mc-{prop}")
+        fb = ex.submit(run_tlc, "MCRuntimeCycle", names[1], workers=4, coverage=True, timeout=2400, tag=f"mcfb-{prop}")
+        mc, mcfb = base.result(), fb.result()
+    for res, need in ((mc, NEED_ACTIONS[prop]), (mcfb, NEED_ACTIONS[prop] + NEED_ACTIONS_FB[prop])):
+        cov = res.get("action_coverage", {})
+        for a in need:
+            if cov.get(a, 0) == 0:
+                raise ToolError(f"vacuous model run: action {a} never taken ({cov})")
+    return mc, mcfb
 
 
 def execute(scripts, work, name):
@@ -101,28 +150,41 @@ def run(prop, tier, replay):
     work.mkdir(parents=True, exist_ok=True)
     rep = Report(prop, tier, "fault_enumeration" if prop == "C08" else "model_checking")
     build_harness()
-    mc = None
+    mc = mcfb = None
+    phase, t0 = {}, time.time()
+    pool = ThreadPoolExecutor(max_workers=1)
+    models = None
     if replay:
         scripts = [json.loads(open(replay).read())["replay"]["script"]]
         exported = []
     else:
-        cfgname = f"MCRuntimeCycle_{prop}" if tier == "quick" else "MCRuntimeCycle_all"
-        mc = run_tlc("MCRuntimeCycle", cfgname, workers=8, coverage=True, timeout=2400, tag=f"mc-{prop}")
-        cov = mc.get("action_coverage", {})
-        for a in NEED_ACTIONS[prop]:
-            if cov.get(a, 0) == 0:
-                raise ToolError(f"vacuous model run: action {a} never taken ({cov})")
-        scripts, exported = gen_scripts(prop, tier, work)
+        # the model runs proceed while the scripts are generated, executed and validated
+        models = pool.submit(model_runs, prop, tier)
+        try:
+            scripts, exported = gen_scripts(prop, tier, work)
+        except ToolError:
+            models.result()     # a broken specification is reported by the model run first
+            raise
+    phase["generate"], t0 = round(time.time() - t0, 1), time.time()
     allscripts = scripts + exported
     tr = execute(allscripts, work, "all")
     rows = read_ndjson(tr)
     runs = split_runs(rows)
-    if len(runs) != len(allscripts):
-        # scripts whose configuration the compiler rejected are dropped by the runner; map by cfg digest
-        pass
+    phase["execute"], t0 = round(time.time() - t0, 1), time.time()
+    # (scripts whose configuration the compiler rejected are dropped by the runner; every run names
+    # the script it came from: Reset.si)
     verdict, tl = validate_trace("RuntimeCycleTrace", tr, tag=f"trace-{prop}")
+    phase["validate"], t0 = round(time.time() - t0, 1), time.time()
+    if models is not None:
+        mc, mcfb = models.result()
+        phase["model_without_fb"], phase["model_with_fb"] = round(mc["wall_s"], 1), round(mcfb["wall_s"], 1)
+    pool.shutdown()
+    phase["wait_for_models"] = round(time.time() - t0, 1)
     if verdict["events"] != len(rows):
         raise ToolError("trace validation did not consume every event")
+    n_fb_runs = sum(1 for r in runs if r[0]["cfg"]["fbs"])
+    if not replay and (n_fb_runs == 0 or n_fb_runs == len(runs)):
+        raise ToolError("one family of configurations (without / with FB associations) was not executed")
     # locate each rejected event
     line_run = {}
     ln = 0
@@ -150,7 +212,7 @@ def run(prop, tier, replay):
                 wrong = [c for c in cfg["counters"] if c["qual"] not in ("retain", "persistent") and ev["ctr"][c["name"]] != 0]
                 if lost and not wrong and all(c["scope"] == "program" for c in lost):
                     key = "powercycle:program-level-retain-lost"
-        script = next((s for s in allscripts if digest(s["cfg"]) == digest(cfg)), None)
+        script = allscripts[runs[ri][0]["si"]]
         rep.violation(key, {"script": script, "rejected_event": ev, "why": b["why"], "spec_result": b["spec"],
                             "spec_output_image": b["expQ"], "trace_line": b["line"],
                             "trace": runs[ri][: (b["line"] - sum(len(x) for x in runs[:ri]))]},
@@ -159,15 +221,30 @@ def run(prop, tier, replay):
     nfault = sum(1 for r in rows if r["a"] == "Cycle" and r["res"] == "fault")
     nref = sum(1 for r in rows if r["a"] == "Cycle" and r["res"] == "refused")
     nrs = sum(1 for r in rows if r["a"] in ("Restart", "PowerCycle"))
+    fbrows = [ev for r in runs if r[0]["cfg"]["fbs"] for ev in r]
+    fbcyc = [ev for ev in fbrows if ev["a"] == "Cycle"]
     sample = [r for r in rows if r["a"] == "Cycle"][:2]
     cov = {
-        "states": (mc or {}).get("distinct", 1) or 1,
-        "transitions": (mc or {}).get("generated", 1) or 1,
+        "states": ((mc or {}).get("distinct", 1) or 1) + (mcfb or {}).get("distinct", 0),
+        "transitions": ((mc or {}).get("generated", 1) or 1) + (mcfb or {}).get("generated", 0),
         "model_depth": (mc or {}).get("depth", 0),
         "model_action_coverage": (mc or {}).get("action_coverage", {}),
+        "model_without_fb_associations": {k: (mc or {}).get(k, 0) for k in ("distinct", "generated", "depth")},
+        "model_with_fb_associations": {"distinct": (mcfb or {}).get("distinct", 0), "generated": (mcfb or {}).get("generated", 0),
+                                       "depth": (mcfb or {}).get("depth", 0), "action_coverage": (mcfb or {}).get("action_coverage", {})},
+        "phase_wall_s": phase,
         "traces_validated_against_impl": len(runs),
         "tlc_exported_scripts_replayed": len(exported),
         "random_scripts_replayed": len(scripts),
+        "runs_without_fb_associations": len(runs) - n_fb_runs,
+        "runs_with_fb_associations": n_fb_runs,
+        "fb_runs": {"events": len(fbrows), "cycles": len(fbcyc),
+                    "cycles_executing_an_fb_instance": sum(1 for ev in fbcyc if any("." in n for n in ev["exec"])),
+                    "fb_instance_executions": sum(1 for ev in fbcyc for n in ev["exec"] if "." in n),
+                    "healthy_cycles_with_an_fb_instance_not_due": sum(1 for r in runs if r[0]["cfg"]["fbs"] for ev in r if ev["a"] == "Cycle" and ev["res"] == "ok"
+                                                                      and sum(1 for n in ev["exec"] if "." in n) < len(r[0]["cfg"]["fbs"])),
+                    "faults_inside_an_fb_instance": sum(1 for ev in fbcyc if ev["res"] == "fault" and ev["exec"] and "." in ev["exec"][-1]
+                                                        and not ev["err"].startswith("ControlError"))},
         "events_validated": len(rows),
         "cycles_validated": ncyc,
         "fault_cycles": nfault,
@@ -189,7 +266,11 @@ def run(prop, tier, replay):
     return rep.finish(cov, assumptions=[
         "the logging IoDriver and the generated ST programs are the only instrumentation; everything below Runtime/TestHarness is real",
         "design-level invariants are checked on MCRuntimeCycle for the constants in the .cfg file",
-        "overlapping output bindings are not generated (which variable wins is unspecified)"])
+        "overlapping output bindings are not generated (which variable wins is unspecified)",
+        "a task-associated FB instance is never also called explicitly by its program (docs/specs/10-runtime.md 6.2 says it "
+        "executes only under its task; the runtime would execute the call as well; the property is silent)",
+        "order inside one task activation (programs in declaration order, then FB instances in declaration order) is "
+        "what Runtime::execute_task does; IEC 61131-3 and docs/specs do not fix it"])
 
 
 def tag_rejections(work, n):
